@@ -438,6 +438,41 @@ def interface_history(g, rng, queries=()):
         cmds += [dict(q) for q in queries]
     return cmds
 
+def diamond_history(g, rng, queries=()):
+    """QF_UF: disjunctions of equality chains (the shape the preprocessor mines for transitivity facts) of every kind -
+    proper diamonds, chains that share one end point only, three arms, an arm that is not a chain, either orientation -
+    together with equalities and disequalities between the end points"""
+    tb = g.tb
+    ts = list(g.us) + [tb.uf("f", [u], "U") for u in g.us[:2]]
+    def eq(a, b): return tb.app("=", [a, b])
+    def chain(a, m, b): return tb.app("and", [eq(a, m), eq(m, b)])
+    cmds, depth = [], 0
+    for _ in range(rng.randint(1, 2)):
+        x, z, w, y, v = rng.sample(ts, 5)
+        kind = rng.choice(["proper", "one-end", "one-end", "three", "three-bad", "three-bad", "swapped", "mixed-ends"])
+        arms = {"proper": [chain(x, w, z), chain(x, y, z)], "swapped": [chain(x, w, z), chain(z, y, x)],
+                "one-end": [chain(x, w, z), chain(x, y, v)], "mixed-ends": [chain(x, w, z), chain(v, y, z)],
+                "three": [chain(x, w, z), chain(x, y, z), chain(x, v, z)],
+                "three-bad": [chain(x, w, z), chain(x, y, z), rng.choice([eq(w, y), tb.app("not", [eq(x, v)]), rng.choice(g.bools)])]}[kind]
+        if rng.random() < 0.3:
+            rng.shuffle(arms)
+        facts = [tb.app("or", arms)]
+        facts += rng.sample([tb.app("not", [eq(x, z)]), tb.app("not", [eq(x, z)]), eq(x, z), tb.app("not", [eq(x, v)]), tb.app("not", [eq(w, y)]),
+                             tb.app("not", [eq(tb.uf("f", [x], "U"), tb.uf("f", [z], "U"))])], rng.randint(1, 3))
+        if rng.random() < 0.5:
+            rng.shuffle(facts)
+        for f in facts:
+            if rng.random() < 0.2:
+                cmds.append({"c": "push", "n": 1}); depth += 1
+            cmds.append({"c": "assert", "t": f, "nm": "", "inner": []})
+            if rng.random() < 0.3:
+                cmds.append({"c": "check-sat"}); cmds += [dict(q) for q in queries]
+        cmds.append({"c": "check-sat"}); cmds += [dict(q) for q in queries]
+        if depth and rng.random() < 0.6:
+            cmds.append({"c": "pop", "n": 1}); depth -= 1
+            cmds.append({"c": "check-sat"}); cmds += [dict(q) for q in queries]
+    return cmds
+
 def sums_history(g, rng, queries=()):
     """linear arithmetic without bounds on single variables: four to six atoms, each over two or three variables; the
     simplex has to pivot several bound-free variables into the basis, and the model is read back from rows that
